@@ -401,5 +401,43 @@ def shim_bytearray(x=b'', *a, **kw):
     return bytearray(x, *a)
 
 
+class LazyView:
+    """memoryview(bytearray)[a:b] of a lazy byte array: a window that writes through to its base (what file.readinto fills)."""
+    def __init__(self, base, off=0, length=None):
+        self.base, self.off = base, off
+        self.length = base.length - off if length is None else length
+
+    def __len__(self):
+        return _sb.sym_len_value(self.length) if hasattr(_sb, 'sym_len_value') else self.length
+
+    @property
+    def nbytes(self):
+        return self.length
+
+    def __getitem__(self, k):
+        if not isinstance(k, slice):
+            raise Unsupported("single byte of a memoryview")
+        a, cnt = norm_slice(k, self.length)
+        return LazyView(self.base, fx(self.off + a), fx(cnt))
+
+    def write(self, data):
+        """Store data (LazyBytes, not longer than the window) at the start of the window; -> number of bytes stored."""
+        d = LazyBytes.wrap(data).snapshot()
+        n = d.length
+        self.base[self.off:self.off + n] = d
+        return n
+
+    def tobytes(self):
+        return self.base[self.off:self.off + self.length]
+
+
+def shim_memoryview(x):
+    if isinstance(x, LazyBytes):
+        return LazyView(x)
+    if isinstance(x, LazyView):
+        return x
+    return memoryview(x)
+
+
 from symx import builtins as _sb  # noqa: E402
-_sb.UNSHADOW.update({shim_bytes: bytes, shim_bytearray: bytearray})
+_sb.UNSHADOW.update({shim_bytes: bytes, shim_bytearray: bytearray, shim_memoryview: memoryview})
